@@ -97,6 +97,13 @@ func runUpGarbage(id string, parts []string) string {
 		})
 		return res, false
 	}
+	if f["warm"] == "1" {
+		// a well-formed exchange first: the transport's pooled read buffer now holds a complete reply to this very
+		// question, so a truncated reply that is decoded beyond the octets actually received would be "completed" from it
+		if w, _ := exchange(2 * time.Second); w != "reply" {
+			return "HARNESS-ERROR warm-up exchange failed: " + w
+		}
+	}
 	c17Mangle = c01Mangler(f["mode"])
 	start := time.Now()
 	first, _ := exchange(700 * time.Millisecond)
